@@ -78,7 +78,7 @@ macro_rules! status {
 
 /// Prime-field-like types (GF255<*>, ModInt256<*>, gfgen types, GF448, ...).
 macro_rules! prime_field_machine {
-    ($fname:ident, $T:ty, $name:expr, $raw:tt, mul_small = $ms:tt, w64 = $w64:tt, sqrt = $sq:tt) => {
+    ($fname:ident, $T:ty, $name:expr, $raw:tt, mul_small = $ms:tt, w64 = $w64:tt, sqrt = $sq:tt, extras = $ex:tt) => {
         fn $fname(t: &mut Tape, rng: &mut SimRng, out: &mut RunOut, nops: usize) {
             type T = $T;
             let el = <T>::ENC_LEN;
@@ -129,8 +129,9 @@ macro_rules! prime_field_machine {
                 let (ia, ib) = (t.usize(regs.len()), t.usize(regs.len()));
                 let a = regs[ia];
                 let b = regs[ib];
-                let op = t.usize(24);
+                let op = t.usize(27);
                 let r: T = match op {
+                    24..=26 => extra_ops!($ex, $T, $name, a, b, regs, t, rng, out),
                     0 => a + b,
                     1 => a - b,
                     2 => a * b,
@@ -226,6 +227,147 @@ macro_rules! prime_field_machine {
     };
 }
 
+/// Operations that only some of the field types have (the same set in every backend of that type).
+macro_rules! extra_ops {
+    (@sqrt_ext $T:ty, $name:expr, $a:expr, $out:expr) => {{
+        let (y, st) = $a.sqrt_ext();
+        status!($out, concat!($name, ".sqrt_ext"), st);
+        // a non-residue yields a root of -x, 2x or -2x: which one is backend business, that it is one of them is not
+        let y2 = y * y;
+        let valid = if st != 0 { y2.equals($a) } else { y2.equals(-$a) | y2.equals($a + $a) | y2.equals(-($a + $a)) };
+        let low = y.encode()[0] & 1;
+        $out.ev(format_args!("{} sqrt_ext({}) -> {:#x} valid {:#x} lsb {} {}", $name, hex(&$a.encode()), st, valid, low,
+            if st != 0 { hex(&y.encode()) } else { String::new() }));
+        if st != 0 { y } else { $a }
+    }};
+    (@enc32 $T:ty, $name:expr, $a:expr, $t:expr, $rng:expr, $out:expr) => {{
+        let e = $a.encode32();
+        let l = if $t.chance(3, 4) { 32 } else { len_biased($t, 32) };
+        let b = bytes_biased($t, $rng, l);
+        let (v, st) = <$T>::decode32(&b);
+        status!($out, concat!($name, ".decode32"), st);
+        $out.ev(format_args!("{} encode32 {} ; decode32({}) -> {:#x} {}", $name, hex(&e), hex(&b), st, hex(&v.encode())));
+        let (w, st2) = <$T>::decode32(&e);
+        status!($out, concat!($name, ".decode32"), st2);
+        $out.ev(format_args!("{} decode32(encode32(x)) -> {:#x} {}", $name, st2, hex(&w.encode())));
+        v
+    }};
+    (@w64be4 $T:ty, $name:expr, $t:expr, $rng:expr, $out:expr) => {{
+        let (w3, w2, w1, w0) = (word($t, $rng), word($t, $rng), word($t, $rng), word($t, $rng));
+        let v = <$T>::from_w64be(w3, w2, w1, w0);
+        let c = <$T>::from_w64le(w0, w1, w2, w3);
+        $out.ev(format_args!("{} from_w64be({:#x},{:#x},{:#x},{:#x}) -> {} same_as_le {:#x}", $name, w3, w2, w1, w0, hex(&v.encode()), v.equals(c)));
+        v
+    }};
+    (@w64be7 $T:ty, $name:expr, $t:expr, $rng:expr, $out:expr) => {{
+        let mut w = [0u64; 7];
+        for x in w.iter_mut() {
+            *x = word($t, $rng);
+        }
+        let v = <$T>::from_w64be(w);
+        let mut wl = w;
+        wl.reverse();
+        let c = <$T>::from_w64le(wl);
+        $out.ev(format_args!("{} from_w64be({:x?}) -> {} same_as_le {:#x}", $name, w, hex(&v.encode()), v.equals(c)));
+        v
+    }};
+    (gf255, $T:ty, $name:expr, $a:expr, $b:expr, $regs:expr, $t:expr, $rng:expr, $out:expr) => {{
+        match $t.usize(8) {
+            0 => extra_ops!(@sqrt_ext $T, $name, $a, $out),
+            1 => extra_ops!(@enc32 $T, $name, $a, $t, $rng, $out),
+            2 => extra_ops!(@w64be4 $T, $name, $t, $rng, $out),
+            5..=7 => {
+                // "not reduced" intermediates: only what the documentation allows is done with them
+                // (operand of a multiplication, square, xsquare); the reduced results are transcript material
+                let c3 = $regs[$t.usize($regs.len())];
+                let which = $t.usize(6);
+                let (u, v) = match which {
+                    0 => ($a.add_noreduce(&$b), $a.sub_noreduce(&$b)),
+                    1 => ($a.mul2_noreduce(), $b.sub_noreduce(&$a)),
+                    2 => ($a.sub_noreduce(&$b), c3.sub_noreduce(&$a)),
+                    3 => $a.mul2add_mul2sub_noreduce(&$b),
+                    4 => $a.add_addsub_noreduce(&$b, &c3),
+                    _ => $a.sub_subadd2_noreduce(&$b, &c3),
+                };
+                let r1 = c3 * u;
+                let r2 = u * v;
+                let r3 = v.square();
+                let r4 = u.xsquare(1 + $t.usize(3) as u32);
+                let r5 = v * c3;
+                $out.ev(format_args!("{} noreduce{} -> {} {} {} {} {}", $name, which, hex(&r1.encode()), hex(&r2.encode()), hex(&r3.encode()), hex(&r4.encode()), hex(&r5.encode())));
+                r2
+            }
+            k => {
+                // constant-time table lookups; an index outside 0..=15 must give zeros
+                let n = if k == 3 { 48 } else { 64 };
+                let tab: Vec<$T> = (0..n).map(|i| $regs[i % $regs.len()] + <$T>::from_u32(i as u32)).collect();
+                let j = match $t.usize(8) {
+                    0 => 0u32,
+                    1 => 15,
+                    2 => 16,
+                    3 => 0xFFFF_FFFF,
+                    4 => 0x8000_0000 | $t.usize(16) as u32,
+                    5 => 16 + $t.usize(240) as u32,
+                    _ => $t.usize(16) as u32,
+                };
+                let r: Vec<$T> = if k == 3 {
+                    let tb: &[$T; 48] = (&tab[..]).try_into().unwrap();
+                    <$T>::lookup16_x3(tb, j).to_vec()
+                } else {
+                    let tb: &[$T; 64] = (&tab[..]).try_into().unwrap();
+                    <$T>::lookup16_x4(tb, j).to_vec()
+                };
+                $out.ev(format_args!("{} lookup16_x{}(j={:#x}) -> {}", $name, r.len(), j, r.iter().map(|x| hex(&x.encode())).collect::<Vec<_>>().join(",")));
+                r[r.len() - 1]
+            }
+        }
+    }};
+    (gf448, $T:ty, $name:expr, $a:expr, $b:expr, $regs:expr, $t:expr, $rng:expr, $out:expr) => {{
+        match $t.usize(2) {
+            0 => extra_ops!(@sqrt_ext $T, $name, $a, $out),
+            _ => extra_ops!(@w64be7 $T, $name, $t, $rng, $out),
+        }
+    }};
+    (gfgen7, $T:ty, $name:expr, $a:expr, $b:expr, $regs:expr, $t:expr, $rng:expr, $out:expr) => {{
+        match $t.usize(3) {
+            0 => extra_ops!(@sqrt_ext $T, $name, $a, $out),
+            1 => $a.mul3(),
+            _ => extra_ops!(@w64be7 $T, $name, $t, $rng, $out),
+        }
+    }};
+    (modint, $T:ty, $name:expr, $a:expr, $b:expr, $regs:expr, $t:expr, $rng:expr, $out:expr) => {{
+        match $t.usize(4) {
+            0 => $a.mul3(),
+            1 => extra_ops!(@enc32 $T, $name, $a, $t, $rng, $out),
+            2 => extra_ops!(@w64be4 $T, $name, $t, $rng, $out),
+            _ => {
+                let l = if $t.chance(3, 4) { 32 } else { len_biased($t, 32) };
+                let bb = bytes_biased($t, $rng, l);
+                let mut v = $a;
+                let st = v.set_decode32(&bb);
+                status!($out, concat!($name, ".set_decode32"), st);
+                $out.ev(format_args!("{} set_decode32({}) -> {:#x} {}", $name, hex(&bb), st, hex(&v.encode())));
+                v
+            }
+        }
+    }};
+    (field256, $T:ty, $name:expr, $a:expr, $b:expr, $regs:expr, $t:expr, $rng:expr, $out:expr) => {{
+        match $t.usize(3) {
+            0 => $a.mul3(),
+            1 => extra_ops!(@enc32 $T, $name, $a, $t, $rng, $out),
+            _ => extra_ops!(@w64be4 $T, $name, $t, $rng, $out),
+        }
+    }};
+    (secp, $T:ty, $name:expr, $a:expr, $b:expr, $regs:expr, $t:expr, $rng:expr, $out:expr) => {{
+        match $t.usize(4) {
+            0 => $a.mul3(),
+            1 => $a.mul21(),
+            2 => extra_ops!(@enc32 $T, $name, $a, $t, $rng, $out),
+            _ => extra_ops!(@w64be4 $T, $name, $t, $rng, $out),
+        }
+    }};
+}
+
 macro_rules! wcons {
     ($T:ty, 4, $raw:expr) => {
         <$T>::from_w64le($raw[0], $raw[1], $raw[2], $raw[3])
@@ -246,19 +388,19 @@ macro_rules! msmall {
 
 use crrl::field::{GF25519, GF255e, GF255s, GF448, GFp256, GFsecp256k1};
 
-prime_field_machine!(m_gf25519, GF25519, "GF25519", 4, mul_small = true, w64 = true, sqrt = true);
-prime_field_machine!(m_gf255e, GF255e, "GF255e", 4, mul_small = true, w64 = true, sqrt = true);
-prime_field_machine!(m_gf255s, GF255s, "GF255s", 4, mul_small = true, w64 = true, sqrt = true);
-prime_field_machine!(m_gf448, GF448, "GF448", 7, mul_small = true, w64 = true, sqrt = true);
-prime_field_machine!(m_gfp256, GFp256, "GFp256", 4, mul_small = false, w64 = false, sqrt = true);
-prime_field_machine!(m_gfsecp256k1, GFsecp256k1, "GFsecp256k1", 4, mul_small = false, w64 = false, sqrt = true);
-prime_field_machine!(m_sc25519, crrl::ed25519::Scalar, "Scalar25519", 4, mul_small = false, w64 = false, sqrt = true);
-prime_field_machine!(m_scp256, crrl::p256::Scalar, "ScalarP256", 4, mul_small = false, w64 = false, sqrt = false);
-prime_field_machine!(m_scsecp, crrl::secp256k1::Scalar, "ScalarSecp256k1", 4, mul_small = false, w64 = false, sqrt = false);
-prime_field_machine!(m_scjq255e, crrl::jq255e::Scalar, "ScalarJq255e", 4, mul_small = false, w64 = false, sqrt = true);
-prime_field_machine!(m_scjq255s, crrl::jq255s::Scalar, "ScalarJq255s", 4, mul_small = false, w64 = false, sqrt = true);
-prime_field_machine!(m_scgls254, crrl::gls254::Scalar, "ScalarGls254", 4, mul_small = false, w64 = false, sqrt = true);
-prime_field_machine!(m_sc448, crrl::ed448::Scalar, "Scalar448", 7, mul_small = true, w64 = true, sqrt = true);
+prime_field_machine!(m_gf25519, GF25519, "GF25519", 4, mul_small = true, w64 = true, sqrt = true, extras = gf255);
+prime_field_machine!(m_gf255e, GF255e, "GF255e", 4, mul_small = true, w64 = true, sqrt = true, extras = gf255);
+prime_field_machine!(m_gf255s, GF255s, "GF255s", 4, mul_small = true, w64 = true, sqrt = true, extras = gf255);
+prime_field_machine!(m_gf448, GF448, "GF448", 7, mul_small = true, w64 = true, sqrt = true, extras = gf448);
+prime_field_machine!(m_gfp256, GFp256, "GFp256", 4, mul_small = false, w64 = false, sqrt = true, extras = field256);
+prime_field_machine!(m_gfsecp256k1, GFsecp256k1, "GFsecp256k1", 4, mul_small = false, w64 = false, sqrt = true, extras = secp);
+prime_field_machine!(m_sc25519, crrl::ed25519::Scalar, "Scalar25519", 4, mul_small = false, w64 = false, sqrt = true, extras = modint);
+prime_field_machine!(m_scp256, crrl::p256::Scalar, "ScalarP256", 4, mul_small = false, w64 = false, sqrt = false, extras = modint);
+prime_field_machine!(m_scsecp, crrl::secp256k1::Scalar, "ScalarSecp256k1", 4, mul_small = false, w64 = false, sqrt = false, extras = modint);
+prime_field_machine!(m_scjq255e, crrl::jq255e::Scalar, "ScalarJq255e", 4, mul_small = false, w64 = false, sqrt = true, extras = modint);
+prime_field_machine!(m_scjq255s, crrl::jq255s::Scalar, "ScalarJq255s", 4, mul_small = false, w64 = false, sqrt = true, extras = modint);
+prime_field_machine!(m_scgls254, crrl::gls254::Scalar, "ScalarGls254", 4, mul_small = false, w64 = false, sqrt = true, extras = modint);
+prime_field_machine!(m_sc448, crrl::ed448::Scalar, "Scalar448", 7, mul_small = true, w64 = true, sqrt = true, extras = gfgen7);
 
 /// Group machines: add / sub / double / neg / mul / mulgen / encode / decode
 /// / equals / isneutral / double-scalar multiplication.
